@@ -1,8 +1,9 @@
-//@ unit ipck props=C18,C08,C16
+//@ unit ipck props=C18,C08,C14
 //@ include vx/prelude.rs
 //@ include vx/be_bytes.rs
 //@ include vx/std_specs.rs
 use vstd::std_specs::convert::*;
+use vstd::std_specs::iter::IteratorSpec;
 //@ import-unit subnet
 //@ import-unit checksum
 verus! {
@@ -41,16 +42,16 @@ impl FromSpecImpl<TypeOfService> for u8 {
     open spec fn obeys_from_spec() -> bool { true }
     open spec fn from_spec(t: TypeOfService) -> Self { t.0 }
 }
-//@ item sim/elvis-core/src/protocols/ipv4/ipv4_parsing.rs :: impl From<TypeOfService> for u8 id=u8.from_TypeOfService
+//@ item sim/elvis-core/src/protocols/ipv4/ipv4_parsing.rs :: impl From<TypeOfService> for u8 id=u8.from_TypeOfService props=C18,C08,C16
 //@ end
 impl TypeOfService {
-//@ item sim/elvis-core/src/protocols/ipv4/ipv4_parsing.rs :: impl TypeOfService / fn as_u8 id=TypeOfService.as_u8
+//@ item sim/elvis-core/src/protocols/ipv4/ipv4_parsing.rs :: impl TypeOfService / fn as_u8 id=TypeOfService.as_u8 props=C18,C08,C16
 //@ contract
     ensures r == self.0,
 //@ end
 }
 impl ControlFlags {
-//@ item sim/elvis-core/src/protocols/ipv4/ipv4_parsing.rs :: impl ControlFlags / fn as_u8 id=ControlFlags.as_u8
+//@ item sim/elvis-core/src/protocols/ipv4/ipv4_parsing.rs :: impl ControlFlags / fn as_u8 id=ControlFlags.as_u8 props=C18,C08,C16
 //@ contract
     ensures r == self.0,
 //@ end
@@ -104,7 +105,7 @@ impl Ipv4HeaderBuilder {
             self.source, self.destination)
     }
 
-//@ item sim/elvis-core/src/protocols/ipv4/ipv4_parsing.rs :: impl Ipv4HeaderBuilder / fn build id=Ipv4HeaderBuilder.build
+//@ item sim/elvis-core/src/protocols/ipv4/ipv4_parsing.rs :: impl Ipv4HeaderBuilder / fn build id=Ipv4HeaderBuilder.build props=C18,C08,C16
 //@ rewrite `&(total_length|self\.identification|flags_and_fragment_offset)\.to_be_bytes\(\)` => `&vx_u16_to_be(\1)` ## core::to_be_bytes routed through the contract-carrying wrapper
 //@ rewrite `&checksum\.as_u16\(\)\.to_be_bytes\(\)` => `&vx_u16_to_be(checksum.as_u16())` ## core::to_be_bytes routed through the contract-carrying wrapper
 //@ rewrite `&self\.(source|destination)\.to_u32\(\)\.to_be_bytes\(\)` => `&vx_u32_to_be(self.\1.to_u32())` ## core::to_be_bytes routed through the contract-carrying wrapper
@@ -137,13 +138,207 @@ impl Ipv4Header {
             cksum_of(ip_sum(self.type_of_service.0, self.total_length, self.identification, ff, self.time_to_live, self.protocol, self.source, self.destination)),
             self.source, self.destination)
     }
-//@ item sim/elvis-core/src/protocols/ipv4/ipv4_parsing.rs :: impl Ipv4Header / fn serialize id=Ipv4Header.serialize
+//@ item sim/elvis-core/src/protocols/ipv4/ipv4_parsing.rs :: impl Ipv4Header / fn serialize id=Ipv4Header.serialize props=C18,C08,C16
 //@ contract
     requires self.total_length >= 20,
     ensures
         (r is Ok) == (self.fragment_offset <= 0x1fff),   //# refuses_exactly_the_unrepresentable [C08]
         r matches Ok(v) ==> v@ == self.wire(),   //# re_emits_every_field_with_a_fresh_checksum [C08,C18,C16]
 //@ end
+}
+
+
+// ---------------------------------------------------------------------------
+// utility.rs: BytesExt readers over an arbitrary byte iterator (same contracts as in unit tcpck)
+// ---------------------------------------------------------------------------
+// ---------------------------------------------------------------------------
+/// taking n bytes off the front of an iterator
+pub open spec fn took(before: Seq<u8>, after: Seq<u8>, n: int) -> bool {
+    before.len() >= n && after == before.subrange(n, before.len() as int)
+}
+
+pub trait BytesExt: Iterator<Item = u8> {
+//@ item sim/elvis-core/src/protocols/utility.rs :: trait BytesExt / fn next_u8 id=BytesExt.next_u8
+//@ contract
+    requires (*old(self)).obeys_prophetic_iter_laws(),
+    ensures
+        (*final(self)).obeys_prophetic_iter_laws(),
+        (*old(self)).remaining().len() >= 1 ==> r == Some((*old(self)).remaining()[0]) && took((*old(self)).remaining(), (*final(self)).remaining(), 1),   //# reads_one_byte [C08,C14]
+        (*old(self)).remaining().len() < 1 ==> r is None,   //# none_when_exhausted [C14]
+//@ end
+//@ item sim/elvis-core/src/protocols/utility.rs :: trait BytesExt / fn next_u16_be id=BytesExt.next_u16_be
+//@ rewrite `u16::from_be_bytes\(arr\)` => `vx_u16_from_be(arr)` ## core::from_be_bytes routed through the contract-carrying wrapper
+//@ contract
+    requires (*old(self)).obeys_prophetic_iter_laws(),
+    ensures
+        (*final(self)).obeys_prophetic_iter_laws(),
+        (*old(self)).remaining().len() >= 2 ==> r == Some(be16([(*old(self)).remaining()[0], (*old(self)).remaining()[1]])) && took((*old(self)).remaining(), (*final(self)).remaining(), 2),   //# reads_big_endian_u16 [C08,C14]
+        (*old(self)).remaining().len() < 2 ==> r is None,   //# none_when_too_short [C14]
+//@ after 1 `let arr = [self.next()?, self.next()?];`
+        proof {
+            let r0 = (*old(self)).remaining();
+            assert((*self).remaining() =~= r0.subrange(2, r0.len() as int));
+            assert(arr@ =~= seq![r0[0], r0[1]]);
+        }
+//@ end
+//@ item sim/elvis-core/src/protocols/utility.rs :: trait BytesExt / fn next_u32_be id=BytesExt.next_u32_be
+//@ rewrite `u32::from_be_bytes\(arr\)` => `vx_u32_from_be(arr)` ## core::from_be_bytes routed through the contract-carrying wrapper
+//@ contract
+    requires (*old(self)).obeys_prophetic_iter_laws(),
+    ensures
+        (*final(self)).obeys_prophetic_iter_laws(),
+        (*old(self)).remaining().len() >= 4 ==> r == Some(be32([(*old(self)).remaining()[0], (*old(self)).remaining()[1], (*old(self)).remaining()[2], (*old(self)).remaining()[3]])) && took((*old(self)).remaining(), (*final(self)).remaining(), 4),   //# reads_big_endian_u32 [C08,C14]
+        (*old(self)).remaining().len() < 4 ==> r is None,   //# none_when_too_short [C14]
+//@ after 1 `let arr = [self.next()?, self.next()?, self.next()?, self.next()?];`
+        proof {
+            let r0 = (*old(self)).remaining();
+            assert((*self).remaining() =~= r0.subrange(4, r0.len() as int));
+            assert(arr@ =~= seq![r0[0], r0[1], r0[2], r0[3]]);
+        }
+//@ end
+//@ item sim/elvis-core/src/protocols/utility.rs :: trait BytesExt / fn next_n id=BytesExt.next_n mode=sig
+//@ contract
+    // ASSUMED contract (body not verified: const-generic array filled by `for element in &mut result`)
+    requires (*old(self)).obeys_prophetic_iter_laws(),
+    ensures
+        (*final(self)).obeys_prophetic_iter_laws(),
+        (*old(self)).remaining().len() >= N ==> r is Some && r->0@ == (*old(self)).remaining().subrange(0, N as int) && took((*old(self)).remaining(), (*final(self)).remaining(), N as int),
+        (*old(self)).remaining().len() < N ==> r is None,
+//@ end
+//@ item sim/elvis-core/src/protocols/utility.rs :: trait BytesExt / fn next_ipv4addr id=BytesExt.next_ipv4addr mode=sig
+//@ contract
+    // ASSUMED contract (one-line body `self.next_u32_be().map(Ipv4Address::from)` not verified here: Verus' trait-cycle
+    // check rejects a call to `From<u32> for Ipv4Address` from a default method of a blanket-implemented trait)
+    requires (*old(self)).obeys_prophetic_iter_laws(),
+    ensures
+        (*final(self)).obeys_prophetic_iter_laws(),
+        (*old(self)).remaining().len() >= 4 ==> r == Some(Ipv4Address([(*old(self)).remaining()[0], (*old(self)).remaining()[1], (*old(self)).remaining()[2], (*old(self)).remaining()[3]])) && took((*old(self)).remaining(), (*final(self)).remaining(), 4),
+        (*old(self)).remaining().len() < 4 ==> r is None,   //# none_when_too_short [C14]
+//@ end
+}
+//@ item sim/elvis-core/src/protocols/utility.rs :: impl BytesExt for T id=BytesExt.blanket_impl
+//@ end
+
+
+
+
+// ---------------------------------------------------------------------------
+// tcp/tcp_parsing.rs in the compute_checksum configuration (Checksum functions: compute_checksum variants, imported by
+
+
+// ---------------------------------------------------------------------------
+// ipv4/ipv4_parsing.rs, decode side (compute_checksum configuration)
+// ---------------------------------------------------------------------------
+//@ item sim/elvis-core/src/protocols/ipv4/ipv4_parsing.rs :: enum ParseError
+//@ rewrite `#\[derive\(Debug, ThisError, Clone, Copy, PartialEq, Eq\)\]` => `#[derive(Debug, Clone, Copy, PartialEq, Eq)]` ## thiserror derive dropped (Display impl only)
+//@ rewrite `#\[error\(\s*"[^"]*"\s*\)\]` => `` ## thiserror attribute dropped
+//@ rewrite `(Reliability|Delay|Throughput|Precedence)\(#\[from\] \w+\),` => `` ## variants wrapping the TOS sub-field errors dropped (never constructed by the decoder)
+//@ end
+impl FromSpecImpl<u8> for TypeOfService {
+    open spec fn obeys_from_spec() -> bool { true }
+    open spec fn from_spec(b: u8) -> Self { TypeOfService(b) }
+}
+//@ item sim/elvis-core/src/protocols/ipv4/ipv4_parsing.rs :: impl From<u8> for TypeOfService id=TypeOfService.from_u8
+//@ end
+impl FromSpecImpl<u8> for ControlFlags {
+    open spec fn obeys_from_spec() -> bool { true }
+    open spec fn from_spec(b: u8) -> Self { ControlFlags(b) }
+}
+//@ item sim/elvis-core/src/protocols/ipv4/ipv4_parsing.rs :: impl From<u8> for ControlFlags id=ControlFlags.from_u8
+//@ end
+
+/// the fields of an option-less IPv4 header at their RFC 791 offsets
+pub open spec fn ip_fields(all: Seq<u8>) -> Ipv4Header {
+    let ff = be16([all[6], all[7]]);
+    Ipv4Header { ihl: 5, type_of_service: TypeOfService(all[1]), total_length: be16([all[2], all[3]]), identification: be16([all[4], all[5]]),
+        fragment_offset: ff & 0x1fff, flags: ControlFlags((ff >> 13) as u8), time_to_live: all[8], protocol: all[9], checksum: be16([all[10], all[11]]),
+        source: Ipv4Address([all[12], all[13], all[14], all[15]]), destination: Ipv4Address([all[16], all[17], all[18], all[19]]) }
+}
+/// the decoder's acceptance condition: complete, version 4, IHL 5, reserved TOS bits and reserved flag zero, total length
+/// at least the header, and the checksum field is the one a conforming sender computes (either representation of zero)
+pub open spec fn ip_accepts(all: Seq<u8>) -> bool {
+    &&& all.len() >= 20 && all[0] == 0x45 && all[1] & 0b11 == 0 && be16([all[2], all[3]]) >= 20 && (be16([all[6], all[7]]) >> 13) as u8 & 0b100 == 0
+    &&& ({
+        let h = ip_fields(all);
+        let sum = ip_sum(all[1], h.total_length, h.identification, be16([all[6], all[7]]), h.time_to_live, h.protocol, h.source, h.destination);
+        cksum_of(sum) == h.checksum || (cksum_of(sum) == 0xffff && h.checksum == 0)
+    })
+}
+
+impl Ipv4Header {
+//@ item sim/elvis-core/src/protocols/ipv4/ipv4_parsing.rs :: impl Ipv4Header / fn from_bytes id=Ipv4Header.from_bytes
+//@ rewrite `mut bytes: impl Iterator<Item = u8>` => `bytes0: impl Iterator<Item = u8>` ## the `mut` parameter is renamed bytes0 and rebound by `let mut bytes = bytes0;` as the first statement
+//@ contract
+    requires bytes0.obeys_prophetic_iter_laws(),
+    ensures
+        // (C18, C14) a header is accepted exactly when it is complete, well formed and carries the checksum a conforming
+        //            sender computes; every other byte string is an error, never a panic
+        r is Ok <==> ip_accepts(bytes0.remaining()),   //# accepts_exactly_the_verifying_headers [C18,C14]
+        // (C08) the decoded fields are the RFC 791 fields
+        r matches Ok(h) ==> h == ip_fields(bytes0.remaining()),   //# fields_at_their_rfc791_offsets [C08]
+//@ start
+        let mut bytes = bytes0;
+        let ghost all = bytes0.remaining();
+//@ after 1 `let version_and_ihl = bytes.next_u8().ok_or(HTS)?;`
+        proof {
+            assert(bytes.remaining() =~= all.subrange(1, all.len() as int));
+            let v = version_and_ihl;
+            assert((v >> 4 == 4 && v & 0b1111 == 5) <==> v == 0x45u8) by (bit_vector);
+        }
+//@ after 1 `let type_of_service_byte = bytes.next_u8().ok_or(HTS)?;`
+        proof { assert(bytes.remaining() =~= all.subrange(2, all.len() as int)); }
+//@ after 1 `let total_length = bytes.next_u16_be().ok_or(HTS)?;`
+        proof { assert(bytes.remaining() =~= all.subrange(4, all.len() as int)); }
+//@ after 1 `let identification = bytes.next_u16_be().ok_or(HTS)?;`
+        proof { assert(bytes.remaining() =~= all.subrange(6, all.len() as int)); }
+//@ after 1 `let flags_and_fragment_offset_bytes = bytes.next_u16_be().ok_or(HTS)?;`
+        proof { assert(bytes.remaining() =~= all.subrange(8, all.len() as int)); }
+//@ after 1 `let time_to_live = bytes.next_u8().ok_or(HTS)?;`
+        proof { assert(bytes.remaining() =~= all.subrange(9, all.len() as int)); }
+//@ after 1 `let protocol = bytes.next_u8().ok_or(HTS)?;`
+        proof { assert(bytes.remaining() =~= all.subrange(10, all.len() as int)); }
+//@ after 1 `let expected_checksum = bytes.next_u16_be().ok_or(HTS)?;`
+        proof { assert(bytes.remaining() =~= all.subrange(12, all.len() as int)); }
+//@ after 1 `let source: Ipv4Address = bytes.next_ipv4addr().ok_or(HTS)?;`
+        proof { assert(bytes.remaining() =~= all.subrange(16, all.len() as int)); }
+//@ after 1 `let destination: Ipv4Address = bytes.next_ipv4addr().ok_or(HTS)?;`
+        proof { assert(bytes.remaining() =~= all.subrange(20, all.len() as int)); }
+//@ before 1 `let actual_checksum = checksum.as_u16();`
+        proof {
+            let ws = ip_words(type_of_service_byte, total_length, identification, flags_and_fragment_offset_bytes, time_to_live, protocol, source, destination);
+            lemma_ip_fold9(0, ws);
+            assert(checksum.0 == oc_fold(0, ws));
+        }
+//@ end
+}
+
+
+/// (C08, C18) every header the builder emits is accepted by the stack's own decoder and decodes to the fields it was built
+/// from - a lemma over the contracts of `build` and `from_bytes` (flags as the two-bit DF/MF value the type can hold,
+/// reserved TOS bits zero as `TypeOfService::new` produces them)
+pub proof fn lemma_ip_emitted_is_accepted(b: Ipv4HeaderBuilder)   //# [C08,C18]
+    requires b.payload_length + 20 <= 65535, b.fragment_offset <= 0x1fff, b.flags.0 < 4, b.type_of_service.0 & 0b11 == 0,
+    ensures
+        ip_accepts(b.wire()),
+        ip_fields(b.wire()) == (Ipv4Header { ihl: 5, type_of_service: b.type_of_service, total_length: (b.payload_length + 20) as u16, identification: b.identification,
+            fragment_offset: b.fragment_offset, flags: b.flags, time_to_live: b.time_to_live, protocol: b.protocol,
+            checksum: cksum_of(ip_sum(b.type_of_service.0, (b.payload_length + 20) as u16, b.identification, ip_ff(b.flags.0, b.fragment_offset), b.time_to_live, b.protocol, b.source, b.destination)),
+            source: b.source, destination: b.destination }),
+{
+    let all = b.wire();
+    let tl = (b.payload_length + 20) as u16;
+    let ff = ip_ff(b.flags.0, b.fragment_offset);
+    let ck = cksum_of(ip_sum(b.type_of_service.0, tl, b.identification, ff, b.time_to_live, b.protocol, b.source, b.destination));
+    lemma_to_be16_roundtrip(tl); lemma_to_be16_roundtrip(b.identification); lemma_to_be16_roundtrip(ff); lemma_to_be16_roundtrip(ck);
+    assert([all[2], all[3]] =~= spec_to_be16(tl));
+    assert([all[4], all[5]] =~= spec_to_be16(b.identification));
+    assert([all[6], all[7]] =~= spec_to_be16(ff));
+    assert([all[10], all[11]] =~= spec_to_be16(ck));
+    let (fl, fo) = (b.flags.0, b.fragment_offset);
+    assert(fl < 4 && fo <= 0x1fff ==> ((((fl as u16) << 13) | (fo & 0x1fff)) >> 13) as u8 == fl && (((fl as u16) << 13) | (fo & 0x1fff)) & 0x1fff == fo
+        && (((((fl as u16) << 13) | (fo & 0x1fff)) >> 13) as u8) & 0b100 == 0) by (bit_vector);
+    assert(Ipv4Address([all[12], all[13], all[14], all[15]]) == b.source) by { assert([all[12], all[13], all[14], all[15]] =~= b.source.0); }
+    assert(Ipv4Address([all[16], all[17], all[18], all[19]]) == b.destination) by { assert([all[16], all[17], all[18], all[19]] =~= b.destination.0); }
 }
 
 /// (C18) every IPv4 header the stack emits verifies under the RFC 1071 receiver rule - a lemma over the contract
